@@ -18,6 +18,8 @@ LEVEL_TEXT = ('static taint / def-use and ordering rules on SystemClock._run, Te
               'ClockScheduler, every sched/sched_abs branch and Routine.next. Does not decide observed times under real '
               'jitter or float exactness.')
 LEVEL_NOTE = 'timing itself is not decided; assumes local assignments are the only dataflow inside the analysed functions'
+LEVEL_TEXT_ADD = ' Also: queued times are passed through untransformed (C05.exact).'
+LEVEL_TEXT = (globals().get('LEVEL_TEXT') or EXPLANATION) + LEVEL_TEXT_ADD
 TECHNIQUE = 'static analysis: intra-procedural taint (physical-time sources) + must-precede ordering on enumerated paths'
 
 PHYS_CALLS = {'elapsed_time', 'elapsed_beats', 'osc_time'}
